@@ -330,6 +330,33 @@ def run(world, rep, tier, only=None):
                        "a fix_problem()" % n_.line)
     rep.floor("C05.f silently discarded library failures that may be checksum errors", n_sw, 1)
 
+    # ------------------------------------------------------------------ C05.h names are compared case-insensitively only in a casefold directory
+    # e2fsck -D sorts and de-duplicates the names of a directory; on a casefold file system only the directories that
+    # carry EXT4_CASEFOLD_FL fold case.  The comparator context must get its folding table (and its flag) under a
+    # test of that inode flag - set for every directory it makes `Makefile` and `makefile` duplicates and renames one.
+    rd_ = prog.fn("e2fsck_rehash_dir", "e2fsck/rehash.c")
+    n_cf = 0
+    for st in rd_.events("S"):
+        lhs0 = T.strip(st.ev["lhs"])
+        rhs = st.ev.get("rhs")
+        if not isinstance(rhs, dict):
+            continue
+        vals = []
+        if isinstance(lhs0, dict) and lhs0.get("k") == "m" and lhs0.get("r") == "name_cmp_ctx":
+            vals = [rhs]
+        elif isinstance(T.strip(rhs), dict) and T.strip(rhs).get("k") == "rec" and T.strip(rhs).get("r") == "name_cmp_ctx":
+            vals = list((T.strip(rhs).get("f") or {}).values())
+        for v in vals:
+            if T.const(v) == 0:
+                continue        # "compare bytes"
+            n_cf += 1
+            lits = control_lits(rd_, st)
+            ok = any(t and "EXT4_CASEFOLD_FL" in T.macros(a) and "i_flags" in T.field_names(a) for t, a in lits)
+            rep.ob("C05.h", site(rd_, "case folding enabled only under the directory's EXT4_CASEFOLD_FL#%d" % n_cf), ok,
+                   "`%s` (line %d) puts `%s` into the comparator context under %s" %
+                   (st.text()[:40], st.line, T.pp(v)[:30], [("" if t else "!") + T.pp(a)[:40] for t, a in lits][-2:]))
+    rep.floor("C05.h stores that enable case folding in e2fsck_rehash_dir", n_cf, 1)
+
     # ------------------------------------------------------------------ C05.g extent pieces advance in both address spaces
     # when e2fsck rebuilds an extent tree it cuts runs longer than the on-disk maximum into pieces: every piece starts
     # where the previous one ended, logically *and* physically
